@@ -310,7 +310,7 @@ def _szc(e):
 
 
 CLAIM = {
-    "text": "Decides the discipline that every operation sequence on the INS sample store relies on: samples and their density rows are sorted by one argsort, inserted at the same searchsorted positions (axis 0) and never masked apart (R-PAIR); the store is only (re)assigned from a sort of its input or an insertion, np.delete touches index arrays only, and outside code only rewrites the derived logQ/logW fields; every inserting path re-derives both index sets: strict mode as complementary prefix/suffix of arange(size) split at the number of samples below the threshold, soft mode by remapping old indices through the complement of (searchsorted index + rank) - the same positions used for the insertion, with a size check - and merging the new positions at searchsorted positions; moving to the discarded set is a sorted merge; removal takes the first n live indices with n = live samples strictly below the threshold (all in replace-all mode) and returns that n; finalisation moves all remaining live indices. Every numpy/scipy name used by the store exists in the pinned environment (np.in1d did not: repaired), and no np.argmax(<predicate>) first-true idiom remains in the store (two were found and repaired). Both threshold setters store exactly the threshold they were given, unconditionally, the sampler forwards one value to both stores and the store's threshold has no other writer (the removed count is a statement about the caller's threshold). An attribute used as an array index (`a[self.idx]`) can never be None at that use - numpy would add an axis instead of failing (C04.7: never None in the class family, or None only before the documented first operation add_initial_samples, or excluded by the guards of the use).",
+    "text": "Decides the discipline that every operation sequence on the INS sample store relies on: samples and their density rows are sorted by one argsort, inserted at the same searchsorted positions (axis 0) and never masked apart (R-PAIR); the store is only (re)assigned from a sort of its input or an insertion, np.delete touches index arrays only, and outside code only rewrites the derived logQ/logW fields; every inserting path re-derives both index sets: strict mode as complementary prefix/suffix of arange(size) split at the number of samples below the threshold, soft mode by remapping old indices through the complement of (searchsorted index + rank) - the same positions used for the insertion, with a size check - and merging the new positions at searchsorted positions; moving to the discarded set is a sorted merge; removal takes the first n live indices with n = live samples strictly below the threshold (all in replace-all mode) and returns that n; finalisation moves all remaining live indices. Every numpy/scipy name used by the store exists in the pinned environment (np.in1d did not: repaired), and no np.argmax(<predicate>) first-true idiom remains in the store (two were found and repaired). Both threshold setters store exactly the threshold they were given, unconditionally, the sampler forwards one value to both stores and the store's threshold has no other writer (the removed count is a statement about the caller's threshold). An attribute used as an array index (`a[self.idx]`) can never be None at that use - numpy would add an axis instead of failing (C04.7: never None in the class family, or None only before the documented first operation add_initial_samples, or excluded by the guards of the use). A removal that moves nothing is taken only when no threshold has been set (`is None`, never truthiness: 0.0 is a threshold) and reports 0 (C04.3).",
     "note": "The history-level statement (sortedness / partition under arbitrary interleavings with ties) is a model-checking question over array contents and is not decided here; these are the necessary structural conditions.",
 }
 
